@@ -858,6 +858,12 @@ def fit_case(ctx, kind, prog=None, spec=None, settings=None):
 
         os.chdir(scratch_dir())  # pyswarms writes a `report.log` into the working directory
         result = search.fit(model=model, analysis=analysis)
+        if settings.get("reuse"):
+            # the same search object fits again, with another likelihood: what it returns is about this fit
+            ctx.hit("fit:search-object-used-before")
+            analysis = make_analysis(rng, model)
+            case["analysis"] = analysis.spec()
+            result = search.fit(model=model, analysis=analysis)
     except Exception as e:  # one crash is not a verdict about the samples; it is counted and shown
         ctx.hit(f"fit-crashed:{kind}:{type(e).__name__}")
         ctx.notes.setdefault("fits_crashed", {})
@@ -916,6 +922,8 @@ QUICK_FITS = [
     ("DynestyStatic", {}),
     ("DynestyStatic", {"x1": True}),
     ("DynestyStatic", {"cores": 2}),
+    ("DynestyStatic", {"reuse": True}),
+    ("Emcee", {"reuse": True}),
     ("DynestyDynamic", {}),
     ("Emcee", {}),
     ("Emcee", {"nsteps": 55}),
